@@ -776,7 +776,12 @@ class Interp:
         if not lazy_ok:
             # a generator expression that is not consumed by the call it is an
             # argument of (stored in a variable / container, returned) is
-            # evaluated lazily by Python, i.e. against the LATER state: not modelled
+            # evaluated lazily by Python, i.e. against the LATER state: not modelled -
+            # unless the contract supplies a model that discharges the side conditions
+            # of eager evaluation itself (marked `handles_lazy`)
+            hook = self._comp_model(node, frame, lazy=True)
+            if hook is not None:
+                return hook
             raise Unsupported("generator expression that is not consumed immediately "
                               f"({ast.unparse(node)[:70]}): lazy evaluation is outside the modelled subset")
         hook = self._comp_model(node, frame)
@@ -814,7 +819,7 @@ class Interp:
             d.d[self.hashable(k)] = v
         return d
 
-    def _comp_model(self, node, frame):
+    def _comp_model(self, node, frame, lazy=False):
         """contract supplied model of a comprehension over a symbolic
         collection (keyed by the unparsed comprehension text)"""
         f = frame
@@ -828,7 +833,7 @@ class Interp:
             return None
         text = ast.unparse(node)
         for pat, fn in models.items():
-            if pat in text:
+            if pat in text and (not lazy or getattr(fn, "handles_lazy", False)):
                 return fn(self, frame, node)
         return None
 
